@@ -59,25 +59,11 @@ class _RecStream:
         return self._s.__exit__(*a)
 
 
-class record_effects:
-    """While active, every binary file opened through pathlib.Path.open (what UKVFile uses) is wrapped in _RecStream."""
-    def __init__(self, log):
-        self.log = log
-
-    def __enter__(self):
-        import pathlib
-        self.orig = pathlib.Path.open
-        log, orig = self.log, self.orig
-
-        def opener(pth, mode="r", *a, **k):
-            f = orig(pth, mode, *a, **k)
-            return _RecStream(f, log) if "b" in mode else f
-        pathlib.Path.open = opener
-        return self
-
-    def __exit__(self, *a):
-        import pathlib
-        pathlib.Path.open = self.orig
+class record_effects(U.open_hook):
+    """While active, every binary file object the library opens on `path` is wrapped in _RecStream (whether it is opened through
+    pathlib.Path.open, io.open or the builtin open)."""
+    def __init__(self, log, path):
+        super().__init__(path, lambda f: _RecStream(f, log))
 
 
 def apply_effect(img, e, j=None):
@@ -202,7 +188,7 @@ def run(ctx, rep):
         base = os.path.getsize(path)
         base_img = open(path, "rb").read()
         log = []
-        with record_effects(log):
+        with record_effects(log, path):
             f = UKVFile(path, "a")
             for k, v in puts:
                 f.put(k, v.b)
@@ -215,7 +201,7 @@ def run(ctx, rep):
             fin = apply_effect(fin, e)
         if not log or fin != data:
             raise RuntimeError("harness: the effect log does not reproduce the file the session wrote "
-                               "(UKVFile no longer opens its file through pathlib.Path.open?)")
+                               "(the library no longer opens its file through io.open / pathlib / the builtin open?)")
         if not ao:
             nonappend.append((si, bad_e[:2]))
         total = sum(len(e[2]) for e in log if e[0] == "w")
@@ -255,7 +241,7 @@ def run(ctx, rep):
             rlog = []
             rput = (b"N", U.Val(41, 1))
             try:
-                with record_effects(rlog):
+                with record_effects(rlog, path):
                     f = UKVFile(path, "a")
                     f.put(rput[0], rput[1].b)
                     f.close()
@@ -334,7 +320,7 @@ def replay(ctx, data):
             f.close()
             base_img = open(path, "rb").read()
             log = []
-            with record_effects(log):
+            with record_effects(log, path):
                 f = UKVFile(path, "a")
                 for k, v in puts:
                     f.put(k, v.b)
@@ -346,7 +332,7 @@ def replay(ctx, data):
             if data.get("kind") == "image2":
                 open(path, "wb").write(img)
                 rlog, rput = [], (b"N", U.Val(41, 1))
-                with record_effects(rlog):
+                with record_effects(rlog, path):
                     f = UKVFile(path, "a"); f.put(rput[0], rput[1].b); f.close()
                 bof = len(base_img) - sum(5 + len(k) + len(v.b) for k, v in committed)
                 done = [(k, v) for k, v in puts if any(kk == k for kk, _, _, _ in U.parse_file(img, bof)[0])]
